@@ -2,7 +2,7 @@
 # tools/confirm_mutant.sh <ID> <letter>: confirm a sub-agent's seeded change in a scratch worktree of /repo HEAD:
 # patch applies, the 43 stable tests pass with it, the demo fails with it and passes without it.
 # On success the change is stored as /verif/seeded/<ID>-<letter>/ {patch.diff, demo.py, meta.json}.
-ID="$1"; L="$2"; SRC="/tmp/wt/out_$ID/$L"; WT="/tmp/wt/confirm_$ID$L"
+ID="$1"; L="$2"; ROUND="${3:-}"; SRC="/tmp/wt/out${ROUND}_$ID/$L"; WT="/tmp/wt/confirm_$ID$L$ROUND"
 [ -f "$SRC/patch.diff" ] || { echo "no patch"; exit 2; }
 git -C /repo worktree add -q --detach "$WT" HEAD || exit 2
 cd "$WT"
@@ -13,9 +13,9 @@ timeout 600 /venv/bin/python demo_X.py > /tmp/confirm_demo_mut.out 2>&1; RC_MUT=
 /venv/bin/python -m pytest -q -p no:cacheprovider --timeout=900 --continue-on-collection-errors -rA 2>&1 | grep -E "^PASSED" | sed 's/PASSED //; s#/#.#g; s/\.py::/::/' | sort > /tmp/confirm_passed.txt
 MISSING=$(sort /tmp/wt/stable_tests.txt | comm -23 - /tmp/confirm_passed.txt | wc -l)
 cd /; git -C /repo worktree remove --force "$WT"
-echo "$ID-$L: demo clean rc=$RC_CLEAN, demo mutated rc=$RC_MUT, stable tests missing=$MISSING"
+echo "$ID-$L$ROUND: demo clean rc=$RC_CLEAN, demo mutated rc=$RC_MUT, stable tests missing=$MISSING"
 if [ "$RC_CLEAN" = 0 ] && [ "$RC_MUT" != 0 ] && [ "$MISSING" = 0 ]; then
-  D="/verif/seeded/$ID-$L"; mkdir -p "$D"
+  D="/verif/seeded/$ID-$L$ROUND"; mkdir -p "$D"
   cp "$SRC/patch.diff" "$SRC/demo.py" "$D/"
   /venv/bin/python - "$SRC/meta.json" "$D/meta.json" "$RC_CLEAN" "$RC_MUT" <<'PY'
 import json, sys
